@@ -366,7 +366,8 @@ class Sel:
 
 class SelGen:
     def __init__(self, rng, stateful_bias=0.5, ns_prefixes=(), custom_names=(), invalid=0.08, lexical=0.15,
-                 special_bias=0.0):
+                 special_bias=0.0, simple=False):
+        self.simple = simple
         self.rng = rng
         self.stateful_bias = stateful_bias
         self.ns_prefixes = list(ns_prefixes)
@@ -471,7 +472,7 @@ class SelGen:
         parts = []
         if rng.random() < 0.6:
             parts.append(self.tag())
-        n = rng.choice([0, 1, 1, 1, 2, 2, 3])
+        n = rng.choice([0, 1, 1, 2] if self.simple else [0, 1, 1, 1, 2, 2, 3])
         if not parts and n == 0:
             n = 1
         for _ in range(n):
@@ -489,14 +490,14 @@ class SelGen:
     def complex(self, depth):
         rng = self.rng
         s = self.compound(depth)
-        for _ in range(rng.choice([0, 0, 0, 1, 1, 2])):
+        for _ in range(rng.choice([0, 0, 0, 0, 1] if self.simple else [0, 0, 0, 1, 1, 2])):
             comb = rng.choice([' ', ' > ', ' + ', ' ~ ', '>', '+', '~', '  '])
             s += comb + self.compound(depth)
         return s
 
     def sel_list(self, depth=0, forgiving=False):
         rng = self.rng
-        items = [self.complex(depth) for _ in range(rng.choice([1, 1, 1, 2, 2, 3]))]
+        items = [self.complex(depth) for _ in range(rng.choice([1, 1, 1, 2] if self.simple else [1, 1, 1, 2, 2, 3]))]
         if forgiving and rng.random() < 0.15:
             items.insert(rng.randrange(len(items) + 1), '')
         return (',' + self.ws() + ' ').join(items) if rng.random() < 0.5 else ', '.join(items)
@@ -595,3 +596,17 @@ def key_args(key):
     if key.get('flags'):
         kw['flags'] = key['flags']
     return kw
+
+
+# Selectors whose evaluation goes through per-call memo tables or swapped matcher state (S4/S5 of DESIGN.md).
+STATEFUL_POOL = [
+    ':lang("")', ':lang(en)', ':lang(de)', ':lang("*-DE")', ':not(:lang(en))', ':lang(fr, de)', 'p:lang(en)',
+    ':default', ':indeterminate', 'input:indeterminate', 'form :default', ':not(:default)', ':has(:default)',
+    ':has(> :indeterminate)', ':checked', ':dir(ltr)', ':dir(rtl)', ':not(:dir(ltr))', ':root', ':root :lang(en)',
+    'iframe :lang(de)', 'iframe :default', ':in-range', ':out-of-range', ':nth-child(2n+1 of :lang(en))',
+    ':nth-child(odd of :indeterminate)', ':is(:default, :lang(de))', ':defined', ':not(:defined)', ':link',
+    ':disabled', ':enabled', ':read-write', ':read-only', ':required', ':optional', ':placeholder-shown',
+    ':default:lang(en)', ':indeterminate:dir(ltr)', 'html|*:lang(en)', ':is(:dir(ltr), :dir(rtl))',
+    ':not(:lang(""))', ':lang("") :default', ':where(:indeterminate) ~ :lang(en)', '*', 'input', 'p', 'div *',
+    ':empty', ':first-child', ':only-child', ':-soup-contains(hello)', ':has(:lang(de))', ':has(~ :indeterminate)',
+]
